@@ -13,12 +13,44 @@
 -/
 import MM.Lemmas.C18
 import MM.Gen.C18
+import MM.Gen.LockC18
 
 namespace MM.C18
 variable {α : Type}
 
 /-- `cap(readBuffer)` in the source is the capacity the model uses (T-gen tie). -/
 theorem cap_tie : Gen.C18.readBufferCap = cap := by decide
+
+
+/-! ### atomic-step tie (facts regenerated from internal/stream/manager.go by tools/lockshape.go)
+
+  The LTS takes as atomic steps: `CloseWrite` as ONE critical section; in `HandleRemoteFinWrite` the
+  flag update (`finMark`) and the state read-and-update (`finState`) each inside a critical section of
+  `mu`; `Close`'s state change under `mu`.  These theorems say exactly that about the source. -/
+
+def lockOf (l : List (String × String × String)) (m callee : String) : List String :=
+  (l.filter (fun c => c.1 == m && c.2.1 == callee)).map (·.2.2)
+
+/-- Every `State()` / `SetState()` call inside `CloseWrite`, `HandleRemoteFinWrite` and `Close` is
+    made while `mu` is write-locked — and each of the calls the model relies on is really there. -/
+theorem C18_lock_state_transitions :
+    (Gen.LockC18.calls.all (fun c => !(c.2.1 == "State" || c.2.1 == "SetState") || c.2.2 == "W")) = true ∧
+    lockOf Gen.LockC18.calls "Stream.CloseWrite" "State" = ["W"] ∧
+    lockOf Gen.LockC18.calls "Stream.CloseWrite" "SetState" = ["W"] ∧
+    lockOf Gen.LockC18.calls "Stream.HandleRemoteFinWrite" "State" = ["W"] ∧
+    lockOf Gen.LockC18.calls "Stream.HandleRemoteFinWrite" "SetState" = ["W"] ∧
+    lockOf Gen.LockC18.calls "Stream.Close" "SetState" = ["W"] := by decide
+
+/-- Every access to `localFinWrite` / `remoteFinWrite` happens under the write lock. -/
+theorem C18_lock_fin_flags :
+    (Gen.LockC18.accesses.all (fun a =>
+      !(a.2.1 == "localFinWrite" || a.2.1 == "remoteFinWrite") || a.2.2.2 == "W")) = true ∧
+    (Gen.LockC18.accesses.any (fun a => a.1 == "Stream.CloseWrite" && a.2.1 == "localFinWrite" && a.2.2.1)) = true ∧
+    (Gen.LockC18.accesses.any (fun a => a.1 == "Stream.HandleRemoteFinWrite" && a.2.1 == "remoteFinWrite" && a.2.2.1)) = true := by
+  decide
+
+/-- `CloseWrite` is a single critical section (one lock acquisition). -/
+theorem C18_lock_closewrite_once : Gen.LockC18.acquisitions.lookup "Stream.CloseWrite" = some 1 := by decide
 
 /-- **Data before EOF.**  In every reachable state of the repaired code: if `Read` has returned
     end-of-stream while the stream had not been closed/reset (`closed = false` at that moment), then
